@@ -898,6 +898,42 @@ func genWide(r *rng) Project {
 	return p
 }
 
+// genRefDiamond: references that meet again - the root's rule names two types that
+// both refer (through `type`/`or` rules, not shortcuts) to a third one; chains of
+// such references; a reference back to an earlier type. The checker walks these with
+// a per-walk guard, and what it finds depends on how often a type is reached.
+func genRefDiamond(r *rng) Project {
+	p := Project{Kind: "jschema", Name: []string{"root", "refs.jst"}[r.n(2)]}
+	val := r.pick([]string{`1`, `"s"`, `true`, `1.5`})
+	leaf := map[string]string{`1`: `2 // {min: 0}`, `"s"`: `"abc" // {minLength: 1}`, `true`: `false`, `1.5`: `2.5 // {precision: 1}`}[val]
+	ref := func(names ...string) string {
+		if len(names) == 1 && r.pct(60) {
+			return val + ` // {type: "` + names[0] + `"}`
+		}
+		q := make([]string, len(names))
+		for i, n := range names {
+			q[i] = `"` + n + `"`
+		}
+		return val + ` // {or: [` + strings.Join(q, ", ") + `]}`
+	}
+	switch r.n(4) {
+	case 0: // diamond
+		p.Text = ref("@a", "@b")
+		p.Types = []TypeSpec{{"@a", "j", ref("@c")}, {"@b", "j", ref("@c")}, {"@c", "j", leaf}}
+	case 1: // diamond one level deeper on one side
+		p.Text = ref("@a", "@b")
+		p.Types = []TypeSpec{{"@a", "j", ref("@c")}, {"@b", "j", ref("@d")}, {"@d", "j", ref("@c")}, {"@c", "j", leaf}}
+	case 2: // chain, used twice from an object
+		p.Text = "{\n  \"x\": " + ref("@a") + ",\n  \"y\": " + ref("@b") + "\n}"
+		p.Text = strings.Replace(p.Text, " // ", ", // ", 1)
+		p.Types = []TypeSpec{{"@a", "j", ref("@b")}, {"@b", "j", ref("@c")}, {"@c", "j", leaf}}
+	default: // a reference back
+		p.Text = ref("@a")
+		p.Types = []TypeSpec{{"@a", "j", ref("@b", "@c")}, {"@b", "j", ref("@a")}, {"@c", "j", leaf}}
+	}
+	return p
+}
+
 func genMultiBroken(r *rng) Project {
 	p := Project{Kind: "jschema", Name: []string{"root", "schema.jst"}[r.n(2)]}
 	n := 2 + r.n(3)
@@ -934,6 +970,9 @@ func genProject(r *rng, tornPct int) Project {
 	}
 	if (r.focus == "" || r.focus == "jschema") && r.pct(3) {
 		return genWide(r)
+	}
+	if (r.focus == "" || r.focus == "jschema") && r.pct(3) {
+		return genRefDiamond(r)
 	}
 	if len(corpusProjects) > 0 && (r.focus == "" || r.focus == "jschema") && r.pct(14) {
 		p := corpusProjects[r.n(len(corpusProjects))]
